@@ -30,6 +30,12 @@ class Plain:
     def __repr__(self):
         return self.label
 
+    def __hash__(self):
+        # deterministic (labels are strings, PYTHONHASHSEED is fixed): the
+        # iteration order of desper's listener sets must not depend on
+        # object addresses, or replays of one history could differ
+        return hash(self.label)
+
 
 class A(Plain):
     pass
